@@ -25,8 +25,9 @@ claim("C04", "Proof of 2-run non-interference (independent batch sizes incl. 1 a
 claim("C05", "Proof that every enabled, non-pruned action of the problem definition is advertised by the mask (including constraints met with equality), per environment listed in the evidence.",
       not_covered=["that pruned moves never carry the optimum (A7, paper-level argument)", "float32 rounding at exact boundaries (A1)"])
 
-claim("C08", "Bounded stand-in only so far (labelled bounded): run-time contract check of FLP/MCP/DPP/MDPP episodes against an independent oracle over the bound stated in the evidence; deductive units for these environments are not built yet.",
-      level="exploration", note="Bounded run-time contract check, not a proof.")
+claim("C08", "Mixed: proof for FLPEnv (_reset/_step/_get_reward: quota counter, distinctness, mask = not chosen, done exactly at the quota, distances = distance to the nearest chosen facility, reward = minus their sum; torch.nonzero seen through its enumeration contract) plus a bounded stand-in for MCP/DPP/MDPP (index-put with duplicates, offline-unavailable data).",
+      level="other", note="FLP proved; MCP/DPP/MDPP bounded run-time contract check.",
+      explanation="FLPEnv methods are proved by tvc (obligations/discharged count those); MCPEnv, DPPEnv, MDPPEnv are covered by the bounded stand-in selection_envs (labelled bounded, not counted as proved).")
 claim("C12", "Proof of the replication layout: batchify/unbatchify (tensors: layout and inverse for nesting depth <= 2; TensorDicts: layout depth <= 2, inverse depth 1) put copy j of instance b at row j*B+b, row r belongs to instance r mod B; unbatchify_and_gather and best-of-k selection return exactly the rows of one maximal rollout of the same instance; forced start nodes are in range, instance-aligned and pairwise distinct for k <= n.",
       not_covered=["nesting depth 3 (r,a,s): the non-linear index arithmetic (mod of mod over products of three symbolic factors) is not decided reliably by z3/cvc5; covered by the eval/loss stand-in only", "feasibility of forced OP start nodes when num_starts < #feasible (see known findings / stand-in)", "POMO/SymNCO regrouping lines (covered by the eval/loss stand-in)"])
 claim("C18", "Bounded stand-in only so far (labelled bounded): run-time contract check of every generator over the parameter grid stated in the evidence against the documented ranges, plus a mask-confined rollout per generated batch (solvable).",
